@@ -266,7 +266,8 @@ def draw_property_layers(
                 f"PropertyLayer {layer_name} portrayal must include 'color' or 'colormap'."
             )
 
-        if isinstance(space, OrthogonalGrid):
+        # HexSingleGrid and HexMultiGrid are subclasses of SingleGrid and MultiGrid
+        if isinstance(space, OrthogonalGrid) and not isinstance(space, HexGrid):
             if "color" in portrayal:
                 data = data.T
                 normalized_data = (data - vmin) / (vmax - vmin)
